@@ -27,13 +27,13 @@ Lemma wrap_go_eq : forall kids m,
   (fix go (n : N) (l : list xnode) {struct l} : list wnode * N :=
      match l with
      | [] => ([], n)
-     | k :: r => let (k', n') := wrap1 n k in let (r', n'') := go n' r in (k' :: r', n'')
+     | k :: r => let (k', n') := wrap1 n k in let (r', n'') := go n' r in (k' ++ r', n'')
      end) m kids = wrap_list m kids.
 Proof. induction kids as [|k r IH]; intro m; [reflexivity|]. cbn [wrap_list]. destruct (wrap1 m k). rewrite IH. reflexivity. Qed.
 
 Lemma wrap1_elem : forall n q a kids,
   wrap1 n (XElem q a kids) =
-  (WElem n q (fst (number_attrs (N.succ n) a)) (fst (wrap_list (snd (number_attrs (N.succ n) a)) kids)),
+  ([WElem n q (fst (number_attrs (N.succ n) a)) (fst (wrap_list (snd (number_attrs (N.succ n) a)) kids))],
    snd (wrap_list (snd (number_attrs (N.succ n) a)) kids)).
 Proof.
   intros. cbn [wrap1]. unfold wrap_attrs_in_start. destruct (number_attrs (N.succ n) a) as [l n1]. rewrite wrap_go_eq.
@@ -41,12 +41,15 @@ Proof.
 Qed.
 
 Lemma wrap1_entref : forall n nm kids,
-  wrap1 n (XEntRef nm kids) = (WEntRef n nm (fst (wrap_list (N.succ n) kids)), snd (wrap_list (N.succ n) kids)).
+  wrap1 n (XEntRef nm kids) = ([WEntRef n nm (fst (wrap_list (N.succ n) kids))], snd (wrap_list (N.succ n) kids)).
 Proof. intros. cbn [wrap1]. rewrite wrap_go_eq. destruct (wrap_list (N.succ n) kids); reflexivity. Qed.
 
 Lemma wrap_list_cons : forall n x r,
-  wrap_list n (x :: r) = (fst (wrap1 n x) :: fst (wrap_list (snd (wrap1 n x)) r), snd (wrap_list (snd (wrap1 n x)) r)).
+  wrap_list n (x :: r) = (fst (wrap1 n x) ++ fst (wrap_list (snd (wrap1 n x)) r), snd (wrap_list (snd (wrap1 n x)) r)).
 Proof. intros; cbn [wrap_list]. destruct (wrap1 n x) as [k' n']. cbn [fst snd]. destruct (wrap_list n' r); reflexivity. Qed.
+
+Lemma wflat_app : forall a b, wflat (a ++ b) = wflat a ++ wflat b.
+Proof. intros; unfold wflat; apply flat_map_app. Qed.
 
 Lemma seq_ok_nil : forall n, seq_ok n [] n.
 Proof. intro; split; cbn; [exact I | lia]. Qed.
@@ -54,72 +57,130 @@ Proof. intro; split; cbn; [exact I | lia]. Qed.
 Lemma seq_ok_one : forall n, seq_ok n [n] (N.succ n).
 Proof. intro; split; cbn; [auto | lia]. Qed.
 
-Lemma seq_ok_entities : forall m a s, seq_ok (a + N.of_nat s) (map (fun j => (a + N.of_nat j)%N) (seq s m)) (a + N.of_nat s + N.of_nat m).
+(** ** all DOMs: the indexes of the linked nodes increase in document order *)
+Fixpoint asc_ok (n : N) (l : list N) (m : N) : Prop :=
+  match l with
+  | [] => (n <= m)%N
+  | x :: r => (n <= x)%N /\ asc_ok (N.succ x) r m
+  end.
+
+Lemma asc_ok_weaken : forall l n k m, (n <= k)%N -> asc_ok k l m -> asc_ok n l m.
+Proof. destruct l; cbn [asc_ok]; intros; [lia | split; [lia | tauto]]. Qed.
+
+Lemma asc_ok_app : forall l1 l2 n k m, asc_ok n l1 k -> asc_ok k l2 m -> asc_ok n (l1 ++ l2) m.
 Proof.
-  induction m as [|m IH]; intros a s; cbn [seq map].
-  - split; cbn; [exact I | lia].
-  - destruct (IH a (S s)) as [H1 H2]. split; cbn [incr_from length].
-    + split; [reflexivity|]. replace (N.succ (a + N.of_nat s)) with (a + N.of_nat (S s))%N by lia. exact H1.
-    + lia.
+  induction l1 as [|x l1 IH]; intros l2 n k m H1 H2; cbn [app asc_ok] in *.
+  - eapply asc_ok_weaken; eassumption.
+  - destruct H1 as [Hx H1]. split; [assumption | eapply IH; eassumption].
 Qed.
 
-Definition Qx (x : xnode) : Prop := forall n, seq_ok n (wflat1 (fst (wrap1 n x))) (snd (wrap1 n x)).
+Lemma asc_ok_ascending : forall l n m, asc_ok n l m -> ascending_from n l.
+Proof. induction l; cbn [asc_ok ascending_from]; intros; [exact I | split; [tauto | eapply IHl; apply H]]. Qed.
 
-Lemma wrap_list_seq : forall xs, Forall Qx xs -> forall n, seq_ok n (wflat (fst (wrap_list n xs))) (snd (wrap_list n xs)).
+Lemma seq_ok_asc : forall l n m, seq_ok n l m -> asc_ok n l m.
+Proof.
+  induction l as [|x l IH]; intros n m [H1 H2]; cbn [asc_ok incr_from length] in *; [lia|].
+  destruct H1 as [Hx H1]. subst x. split; [lia|]. apply IH. split; [assumption | lia].
+Qed.
+
+Definition Qx (x : xnode) : Prop := forall n, asc_ok n (wflat (fst (wrap1 n x))) (snd (wrap1 n x)).
+
+Lemma wrap_list_asc : forall xs, Forall Qx xs -> forall n, asc_ok n (wflat (fst (wrap_list n xs))) (snd (wrap_list n xs)).
 Proof.
   induction 1 as [|x r Hx _ IH]; intro n.
-  - apply seq_ok_nil.
-  - rewrite wrap_list_cons. cbn [fst snd]. unfold wflat. cbn [flat_map]. eapply seq_ok_app; [apply Hx | apply IH].
+  - cbn. lia.
+  - rewrite wrap_list_cons. cbn [fst snd]. rewrite wflat_app. eapply asc_ok_app; [apply Hx | apply IH].
 Qed.
 
 Lemma Qx_all : forall x, Qx x.
 Proof.
   apply xnode_ind2; unfold Qx; intros.
-  - rewrite wrap1_elem. cbn [fst snd wflat1]. unfold wrap_attrs_in_start.
+  - rewrite wrap1_elem. cbn [fst snd]. unfold wflat at 1. cbn [flat_map wflat1]. unfold wrap_attrs_in_start. rewrite app_nil_r.
+    change (n :: map fst (fst (number_attrs (N.succ n) a)) ++ flat_map wflat1 (fst (wrap_list (snd (number_attrs (N.succ n) a)) kids)))
+      with ([n] ++ map fst (fst (number_attrs (N.succ n) a)) ++ wflat (fst (wrap_list (snd (number_attrs (N.succ n) a)) kids))).
+    eapply asc_ok_app; [apply seq_ok_asc, seq_ok_one|]. eapply asc_ok_app; [| apply wrap_list_asc; assumption].
+    destruct (number_attrs (N.succ n) a) as [l n1] eqn:E. apply seq_ok_asc. apply (number_attrs_ok _ _ _ _ E).
+  - rewrite wrap1_entref. cbn [fst snd]. unfold wflat at 1. cbn [flat_map wflat1]. rewrite app_nil_r.
+    change (n :: flat_map wflat1 (fst (wrap_list (N.succ n) kids))) with ([n] ++ wflat (fst (wrap_list (N.succ n) kids))).
+    eapply asc_ok_app; [apply seq_ok_asc, seq_ok_one | apply wrap_list_asc; assumption].
+  - apply seq_ok_asc, seq_ok_one.
+  - apply seq_ok_asc, seq_ok_one.
+  - apply seq_ok_asc, seq_ok_one.
+  - apply seq_ok_asc, seq_ok_one.
+  - cbn. lia.
+Qed.
+
+Lemma wrap_ascending : forall xs, ascending_from wrap_first_index (wflat (wrap xs)).
+Proof.
+  intro xs. unfold wrap. eapply asc_ok_ascending. apply wrap_list_asc. apply Forall_forall. intros; apply Qx_all.
+Qed.
+
+(** ** without a document type node the numbering is consecutive *)
+Definition Qs (x : xnode) : Prop := xnodoctype x = true -> forall n, seq_ok n (wflat (fst (wrap1 n x))) (snd (wrap1 n x)).
+
+Lemma wrap_list_seq : forall xs, Forall Qs xs -> forallb xnodoctype xs = true ->
+  forall n, seq_ok n (wflat (fst (wrap_list n xs))) (snd (wrap_list n xs)).
+Proof.
+  induction 1 as [|x r Hx _ IH]; intros Hd n.
+  - apply seq_ok_nil.
+  - cbn [forallb] in Hd. apply andb_prop in Hd; destruct Hd as [H1 H2].
+    rewrite wrap_list_cons. cbn [fst snd]. rewrite wflat_app. eapply seq_ok_app; [apply Hx; assumption | apply IH; assumption].
+Qed.
+
+Lemma Qs_all : forall x, Qs x.
+Proof.
+  apply (xnode_ind2 Qs); unfold Qs; intros; try discriminate; try apply seq_ok_one.
+  - cbn [xnodoctype] in H0. rewrite wrap1_elem. cbn [fst snd]. unfold wflat at 1. cbn [flat_map wflat1]. unfold wrap_attrs_in_start. rewrite app_nil_r.
     change (n :: map fst (fst (number_attrs (N.succ n) a)) ++ flat_map wflat1 (fst (wrap_list (snd (number_attrs (N.succ n) a)) kids)))
       with ([n] ++ map fst (fst (number_attrs (N.succ n) a)) ++ wflat (fst (wrap_list (snd (number_attrs (N.succ n) a)) kids))).
     eapply seq_ok_app; [apply seq_ok_one|]. eapply seq_ok_app; [| apply wrap_list_seq; assumption].
     destruct (number_attrs (N.succ n) a) as [l n1] eqn:E. apply (number_attrs_ok _ _ _ _ E).
-  - rewrite wrap1_entref. cbn [fst snd wflat1].
+  - cbn [xnodoctype] in H0. rewrite wrap1_entref. cbn [fst snd]. unfold wflat at 1. cbn [flat_map wflat1]. rewrite app_nil_r.
     change (n :: flat_map wflat1 (fst (wrap_list (N.succ n) kids))) with ([n] ++ wflat (fst (wrap_list (N.succ n) kids))).
     eapply seq_ok_app; [apply seq_ok_one | apply wrap_list_seq; assumption].
-  - apply seq_ok_one.
-  - apply seq_ok_one.
-  - apply seq_ok_one.
-  - apply seq_ok_one.
-  - cbn [wrap1 fst snd wflat1].
-    change (n :: map (fun j => (N.succ n + N.of_nat j)%N) (seq 0 (N.to_nat k))) with ([n] ++ map (fun j => (N.succ n + N.of_nat j)%N) (seq 0 (N.to_nat k))).
-    eapply seq_ok_app; [apply seq_ok_one|].
-    pose proof (seq_ok_entities (N.to_nat k) (N.succ n) 0) as H.
-    replace (N.succ n + N.of_nat 0)%N with (N.succ n) in H by lia.
-    replace (N.succ n + N.of_nat (N.to_nat k))%N with (N.succ n + k)%N in H by lia. exact H.
 Qed.
 
-Lemma wrap_preorder_from : forall xs n, seq_ok n (wflat (fst (wrap_list n xs))) (snd (wrap_list n xs)).
-Proof. intros. apply wrap_list_seq. apply Forall_forall. intros; apply Qx_all. Qed.
+Lemma wrap_preorder : forall xs, forallb xnodoctype xs = true -> incr_from wrap_first_index (wflat (wrap xs)).
+Proof.
+  intros xs H. unfold wrap. apply (wrap_list_seq xs); [apply Forall_forall; intros; apply Qs_all | exact H].
+Qed.
 
-Lemma wrap_preorder : forall xs, incr_from wrap_first_index (wflat (wrap xs)).
-Proof. intro xs. unfold wrap. apply (wrap_preorder_from xs wrap_first_index). Qed.
+(** ** the wrapper presents exactly the DOM's nodes except the document type, in the DOM's order *)
+Definition Sx (x : xnode) : Prop := forall n, map wstrip (fst (wrap1 n x)) = map x2t (drop_doctype1 x).
 
-(* the wrapper presents exactly the DOM's nodes, in the DOM's order *)
-Definition Sx (x : xnode) : Prop := forall n, wstrip (fst (wrap1 n x)) = x2t x.
-
-Lemma wrap_list_strip : forall xs, Forall Sx xs -> forall n, map wstrip (fst (wrap_list n xs)) = map x2t xs.
+Lemma wrap_list_strip : forall xs, Forall Sx xs -> forall n, map wstrip (fst (wrap_list n xs)) = map x2t (drop_doctype xs).
 Proof.
   induction 1 as [|x r Hx _ IH]; intro n; [reflexivity|].
-  rewrite wrap_list_cons. cbn [fst map]. rewrite Hx, IH. reflexivity.
+  rewrite wrap_list_cons. cbn [fst]. unfold drop_doctype in *. cbn [flat_map]. rewrite !map_app, Hx, IH. reflexivity.
 Qed.
 
 Lemma Sx_all : forall x, Sx x.
 Proof.
   apply xnode_ind2; unfold Sx; intros; try reflexivity.
-  - rewrite wrap1_elem. cbn [fst wstrip x2t]. rewrite wrap_list_strip by assumption.
+  - rewrite wrap1_elem. cbn [fst map wstrip drop_doctype1 x2t]. rewrite (wrap_list_strip kids H).
     destruct (number_attrs (N.succ n) a) as [l n1] eqn:E. destruct (number_attrs_ok _ _ _ _ E) as [_ H1]. cbn [fst]. rewrite H1. reflexivity.
   - rewrite wrap1_entref. reflexivity.
 Qed.
 
-Lemma wrap_strip : forall xs, map wstrip (wrap xs) = map x2t xs.
+Lemma wrap_strip : forall xs, map wstrip (wrap xs) = map x2t (drop_doctype xs).
 Proof. intro xs. unfold wrap. apply wrap_list_strip. apply Forall_forall. intros; apply Sx_all. Qed.
+
+(* a parser reports nothing for the document type *)
+Lemma sax_of_drop_list : forall xs, Forall (fun x => sax_of x = flat_map sax_of (drop_doctype1 x)) xs ->
+  flat_map sax_of xs = flat_map sax_of (flat_map drop_doctype1 xs).
+Proof.
+  induction 1 as [|x r Hx _ IH]; [reflexivity|]. cbn [flat_map]. rewrite flat_map_app, <- Hx, <- IH. reflexivity.
+Qed.
+
+Lemma sax_of_drop1 : forall x, sax_of x = flat_map sax_of (drop_doctype1 x).
+Proof.
+  apply (xnode_ind2 (fun x => sax_of x = flat_map sax_of (drop_doctype1 x))); intros; cbn [drop_doctype1 flat_map sax_of]; rewrite ?app_nil_r; try reflexivity.
+  - rewrite (sax_of_drop_list kids H). reflexivity.
+  - rewrite (sax_of_drop_list kids H). reflexivity.
+Qed.
+
+Lemma sax_of_drop : forall xs, sax_of_list xs = sax_of_list (drop_doctype xs).
+Proof. intro xs. apply sax_of_drop_list. apply Forall_forall. intros; apply sax_of_drop1. Qed.
 
 (** the native tree of a canonical-attribute tree, with indexes and the xmlns:xml attribute erased, is the tree *)
 Lemma str_eqb_eq : forall a b, str_eqb a b = true -> a = b.
@@ -196,19 +257,19 @@ Qed.
 Lemma sax_of_list_plain : forall xs, forallb xplain xs = true -> sax_of_list xs = events_of_list (map x2t xs).
 Proof. intros xs H. apply sax_of_plain_list; [apply Forall_forall; intros; apply sax_of_plain; assumption | exact H]. Qed.
 
-Lemma wrap_eq_build : forall xs, xnormal xs = true ->
+Lemma wrap_eq_build : forall xs, xnormal (drop_doctype xs) = true ->
   exists d, build_sax (sax_of_list xs) = Some d
             /\ map (strip true) d = map wstrip (wrap xs)
             /\ incr_from first_index (flat d)
-            /\ incr_from wrap_first_index (wflat (wrap xs)).
+            /\ ascending_from wrap_first_index (wflat (wrap xs)).
 Proof.
-  intros xs H. exists (fst (number_list true first_index (map x2t xs))).
-  assert (Hpl : forallb xplain xs = true).
+  intros xs H. exists (fst (number_list true first_index (map x2t (drop_doctype xs)))).
+  assert (Hpl : forallb xplain (drop_doctype xs) = true).
   { unfold xnormal in H. apply andb_prop in H; destruct H as [H _]. apply andb_prop in H; tauto. }
-  rewrite (sax_of_list_plain xs Hpl).
-  pose proof (x2t_plain_events xs H) as Hb. split; [exact Hb|]. split; [|split].
+  rewrite sax_of_drop, (sax_of_list_plain _ Hpl).
+  pose proof (x2t_plain_events _ H) as Hb. split; [exact Hb|]. split; [|split].
   - rewrite wrap_strip. unfold xnormal in H. apply andb_prop in H; destruct H as [H _]. apply andb_prop in H; destruct H as [_ H].
     apply number_list_strip; [apply Forall_forall; intros; apply Tx_all | exact H].
   - eapply index_preorder; exact Hb.
-  - apply wrap_preorder.
+  - apply wrap_ascending.
 Qed.
